@@ -848,6 +848,9 @@ def run(ctx):
     nmv, mvmism, mvclasses, mvexamples = module_vector_cases(ctx, tools, exe, rng, ctx.scale(6, 60))
     classes.update(mvclasses)
     nrt = runtime_side(ctx, tools, enums)
+    # the value of a constant does not depend on the history of its uses (metamorphic family, lib/c06hist.py)
+    import c06hist
+    ctx.cov["const_use_history"] = c06hist.run(ctx, tools, ocamlbuild.build("irrun"), vcheck.run_model)
     tick("aux")
     ctx.cov["timing_s"] = {b[0]: round(b[1] - a[1], 1) for a, b in zip(T, T[1:])}
 
